@@ -20,7 +20,24 @@ the library's ordering.
 
 Keys:  route=<direct|transform|fresh|dxf|svg|dict|path3d> input=<lines|arcs|mixed>
        [tf=<class> via=<method> pre=<none|some|all> [factor=<positive|negative>[_vector]]]
-       [size=below_tol_merge] [arcs=cross_below_tol_zero] read=<value> sym=<symptom>
+       [size=below_tol_merge] [arcs=cross_below_tol_zero] [size=extents_above_1e6] [place=far_from_origin]
+       [arcs=shallow | detail=fillet_near_merge_grid | gap=below_chord_sag] read=<value> sym=<symptom>
+       route=<dxf|svg|dict> stage=<...> [entities=<with_Line|arcs_only>] [tags] sym=exception:<type>
+       route=dxf units=declared read=units sym=changed
+
+Round 4 (drawings next to the library's resolution, all opt-in classes of G-path):
+  arcs=shallow                   circles cut into 350-700 arcs, crowned plates (single arcs of 1.6e-4 ... 0.025
+                                 rad, radius 40 ... 6000 chords); every Arc also observed on its own
+  detail=fillet_near_merge_grid  plates whose corner fillets / chamfers are 3e-6 ... 5e-4 of the diagonal, on
+                                 both sides of the grid of merge_vertices; float placement
+  gap=below_chord_sag            nested curves with a gap of 1e-4 ... 6e-4 of the radius (root observation:
+                                 the edges of the enclosure tree)
+  size=extents_above_1e6         tf=similarity_huge (change of units, factor 1e5 ... 1e12), last step
+  place=far_from_origin          tf=translation_far (1e5 ... 5e5 diagonals), last step
+  units / dict                   DXF round trip of a drawing that declares its unit; the exported dict handed
+                                 back through load_path / load / the constructor (the documented routes)
+For these classes ONE root symptom is reported per geometry (distinct points welded / closed paths lost /
+enclosure tree / arc off its circle) and the reads computed from it are counted as its consequences.
 
 tf classes: identity, near_identity, rigid, similarity (0.5 ... 1e3), mirror_axis, mirror_rot and
 similarity_tiny (change of units about the origin, 1e-6 ... 1e-9, always the last step).  The two
@@ -35,6 +52,7 @@ from __future__ import annotations
 import io
 import math
 import random
+import time
 
 import numpy as np
 
@@ -53,7 +71,12 @@ RULE = (
     "values (the totals area/length among them half of the time), the last one possibly a change of units "
     "about the origin (factor 1e-6..1e-9: drawings smaller than tol.merge, arcs with control triangles "
     "below TOL_ZERO), optionally a dxf/svg/dict round trip (dxf also after a change of units) or a 3D "
-    "conversion. distinct = distinct (entity lists, vertex bytes, history); non-trivial = "
+    "conversion. Every other drawing belongs to an opt-in class next to the library's resolution: flat arcs "
+    "(circle in 350-700 arcs, crowned plates with arcs of 1.6e-4..0.025 rad), corner fillets/chamfers of "
+    "3e-6..5e-4 of the diagonal at float positions, nested curves with a gap of 1e-4..6e-4 of the radius; "
+    "histories of ordinary drawings may end with a change of units 1e5..1e12 or a translation by 1e5..5e5 "
+    "diagonals; dxf exports of drawings that declare a unit; the exported dict re-imported through "
+    "dict_to_path, load_path, load or the constructor. distinct = distinct (entity lists, vertex bytes, history); non-trivial = "
     "more entities than rings or nested rings or a non-identity history."
 )
 ANCHORS = [
@@ -95,6 +118,18 @@ ASSUMPTIONS = [
     "float64 arithmetic is scale free: a similarity about the origin with factor 1e-6..1e-9 leaves every "
     "relative tolerance above valid; DXF stores 12 significant digits (judged at any size while coordinates "
     "are no larger relative to the drawing than generated), SVG 13 decimals (not judged for small drawings)",
+    "an arc piece shorter than one legitimate segment (0.107 rad) may be polygonised as its chord: its whole "
+    "circular segment is added to the area tolerance; arc bounds may miss at most the sagitta of the arc",
+    "merge_vertices welds vertices that fall into one cell of a grid of at most 1e-4 of the diagonal (tol.merge * "
+    "scale rounded up to a power of ten): for fillets next to that grid positions are judged at 1.5 cells, "
+    "area at 1.5 cells x perimeter, and vertex-degree bookkeeping (is_closed, vertex_graph, dangling) of "
+    "sub-resolution pieces is observed, not judged; closed paths, polygons, nesting, area, length are",
+    "coordinates `c` times larger than the drawing leave 2.2e-16 c of its size as float64 resolution: exact "
+    "quantities are compared at 1e-9 + 2e-14 c; after a DXF round trip far from the origin positions are "
+    "judged at the 12 significant digits the file stores, the presence of the regions strictly",
+    "a DXF round trip of a drawing with extents above 2e9 is not judged (one ulp of a coordinate is then "
+    "comparable to the finest merge grid, 0.1), nor are text round trips of arcs whose radius exceeds 100 diagonals",
+    "trimesh.load(kwargs) returns a Scene holding the one geometry (general behaviour of load, also for meshes)",
 ]
 EXHAUSTIVE = {"quick": False, "thorough": False}
 
@@ -116,6 +151,21 @@ ARC_DOWNSTREAM = {
     "discrete", "polygons_closed", "polygons_full", "area", "bounds", "extents", "centroid", "root",
     "enclosure_directed", "enclosure", "enclosure_shell", "body_count", "path_valid", "n_root", "n_edges",
 }
+# reads that say nothing new once a loop of the drawing is reported open (is_closed False): everything
+# that is computed from closed curves.  Used for the classes next to the library's resolution only
+# (fillets, drawings far from the origin / of huge size), where one root symptom would otherwise be
+# reported once per read.
+LOOP_DOWNSTREAM = {
+    "paths", "discrete", "polygons_closed", "polygons_full", "area", "length", "body_count", "root",
+    "enclosure_directed", "enclosure", "enclosure_shell", "bounds", "extents", "vertex_graph", "dangling",
+    "path_valid", "centroid", "n_paths", "n_root", "n_edges",
+}
+# reads computed from the enclosure tree (nesting of the closed curves)
+NEST_DOWNSTREAM = {
+    "root", "enclosure_directed", "enclosure", "enclosure_shell", "polygons_full", "area", "body_count",
+    "n_root", "n_edges",
+}
+UNITS = ["millimeters", "meters", "inches", "feet", "centimeters", "kilometers", "microns", "yards", "miles"]
 SEG_ANGLE = 0.08  # res_path.seg_angle (documented discretisation resolution)
 # discretize_arc uses ceil(span / 0.08) POINTS (>= 4), i.e. one segment fewer: segments span up to
 # 0.08 * k / (k - 1) <= 0.107 rad; inscribed-polygon deficiency 1 - sin(t)/t <= t^2/6 = 1.9e-3 of the
@@ -156,11 +206,16 @@ def observe(path, names, rnd=None):
             obs[n] = v
         except BaseException as e:  # noqa
             obs[n] = Exc(e)
+    try:
+        obs["_n_vertices"] = len(path.vertices)
+    except BaseException:  # noqa
+        pass
     return obs
 
 
 def _signed_area(pts):
-    x, y = pts[:, 0], pts[:, 1]
+    # about the first point: a curve far from the origin would cancel in the plain shoelace sum
+    x, y = pts[:, 0] - pts[0, 0], pts[:, 1] - pts[0, 1]
     return 0.5 * float(np.sum(x[:-1] * y[1:] - x[1:] * y[:-1]))
 
 
@@ -209,7 +264,69 @@ def geometry_class(D, pres, M):
             cmin = min(cmin, abs(float(a[0] * b[1] - a[1] * b[0])))
     if cmin * abs(det) < TOL_ZERO:
         tags.append("arcs=cross_below_tol_zero")
+    ext = float(np.linalg.norm(b0[1] - b0[0])) * s
+    if ext >= 1e6:
+        # Path.merge_vertices rounds to `tol.merge * scale`: from here on that is >= 10 units
+        tags.append("size=extents_above_1e6")
+    M = np.asarray(M, dtype=np.float64)
+    corners = np.array([[b0[0][0], b0[0][1]], [b0[1][0], b0[0][1]], [b0[1][0], b0[1][1]], [b0[0][0], b0[1][1]]])
+    far = float(np.abs(corners @ M[:2, :2].T + M[:2, 2]).max())
+    if far > 1e3 * ext:
+        # coordinates more than a thousand times larger than the drawing (georeferenced placement)
+        tags.append("place=far_from_origin")
     return " ".join(tags), set(tags)
+
+
+def placement(D, M):
+    """(largest coordinate, diagonal) of the drawing mapped through M"""
+    b0 = D.bounds()
+    M = np.asarray(M, dtype=np.float64)
+    corners = np.array([[b0[0][0], b0[0][1]], [b0[1][0], b0[0][1]], [b0[1][0], b0[1][1]], [b0[0][0], b0[1][1]]])
+    return (float(np.abs(corners @ M[:2, :2].T + M[:2, 2]).max()),
+            float(np.linalg.norm(b0[1] - b0[0])) * _mat_props(M)[1])
+
+
+def arc_pieces_info(pres):
+    """
+    Oracle's own view of the three point arcs of a presentation: list of (radius, span) for the arcs
+    that go the SHORT way round (control point between the ends), computed from the control points.
+    """
+    V = pres.vertices
+    out = []
+    for typ, idx, closed in pres.entities:
+        if typ != "Arc" or closed:
+            continue
+        p0, p1, p2 = V[idx[0]], V[idx[1]], V[idx[2]]
+        a, b, c = np.linalg.norm(p1 - p0), np.linalg.norm(p2 - p1), np.linalg.norm(p2 - p0)
+        cross = abs(float((p1 - p0)[0] * (p2 - p0)[1] - (p1 - p0)[1] * (p2 - p0)[0]))
+        if cross == 0.0 or float(np.dot(p0 - p1, p2 - p1)) > 0:
+            # (numerically) straight, or the angle at the control point is acute: more than a half turn
+            continue
+        R = a * b * c / (2.0 * cross)
+        out.append((float(R), 2.0 * math.asin(min(1.0, c / (2.0 * R)))))
+    return out
+
+
+def shallow_slack_area(pieces):
+    """
+    An arc piece shorter than one legitimate segment (0.107 rad, see ARC_RTOL) may be polygonised as its
+    chord: the whole circular segment between chord and arc is then legitimately missing.
+    """
+    return float(sum(0.5 * R * R * (t - math.sin(t)) for R, t in pieces if t < 0.12))
+
+
+def _bounds_arc_tol(D):
+    """
+    Arc bounds come from the polygonised arc (documented approximate): 1e-3 of the radius for ordinary
+    arcs, never more than the sagitta of the arc itself.
+    """
+    tol = 0.0
+    for r in D.rings:
+        for e in r.edges:
+            if e[0] == "A":
+                span = min(e[4] - e[3], math.pi)
+                tol = max(tol, min(1e-3 * e[2], 1.05 * e[2] * (1.0 - math.cos(span / 2.0))))
+    return tol
 
 
 def observe_arc_entities(ctx, path, pres, M):
@@ -262,6 +379,19 @@ class Ctx:
         # reads downstream of a root symptom that was observed (and reported) at entity level for
         # this very geometry: consequences of it, counted but not reported again read by read
         self.masked = set(masked)
+        # root symptom handling of the classes next to the library's resolution: an open loop
+        # (is_closed False) / a wrong enclosure tree is reported once, the reads computed from it are counted
+        self.loop_root = False
+        # number of distinct vertex rows the constructor was given, when all of them are further apart
+        # than any merge distance (None: not known / welding is legitimate)
+        self.expect_vertices = None
+        # a path built from the same coordinates already showed (and reported) a root symptom
+        self.root_inherited = False
+        self.root_masked = set()
+        self.root_fired = False
+        # legitimate slack of this judgement: positional (generator units), area (generator units^2),
+        # length (generator units), relative tolerance of exact quantities
+        self.slack = {}
         self.prefix = "route=%s input=%s%s" % (route, D.input_class, (" " + extra) if extra else "")
         self.fired = 0
         self.symptoms = set()
@@ -276,6 +406,9 @@ class Ctx:
             return
         if read in self.masked:
             self.run.count("symptom_downstream_of_arc_discrete")
+            return
+        if read in self.root_masked and not sym.startswith("exception"):
+            self.run.count("symptom_downstream_of_root_symptom")
             return
         self.fired += 1
         case = dict(self.spec)
@@ -297,6 +430,9 @@ def judge(ctx, obs, M=None, pres=None):
     nr = len(D.rings)
     b0 = D.bounds()
     L0 = float(np.linalg.norm(b0[1] - b0[0])) + float(np.abs(b0).max())
+    sl = ctx.slack or {}
+    rtol = sl.get("rtol", RTOL)
+    s_area, s_len = sl.get("area", 0.0), sl.get("length", 0.0)
     eps0 = 1e-8 * L0  # positional tolerance in generator coordinates
     if ctx.route == "svg" and D.has_arc:
         # SVG stores an arc as end points + radius + flags with a fixed number of decimals: the
@@ -304,14 +440,61 @@ def judge(ctx, obs, M=None, pres=None):
         # like sqrt(r * 10^-digits) - the curve read back legitimately sits ~1e-6..1e-5 of the
         # drawing size away from the exact ring (what the format stores, not what the code does)
         eps0 = 2e-6 * L0
+    eps0 += sl.get("pos", 0.0)
     shells = D.shells()
     exp_area = D.area() * s * s
     exp_len = D.length() * s
-    arc_tol_area = ARC_RTOL * D.arc_area() * s * s
+    arc_tol_area = (ARC_RTOL * D.arc_area() + s_area) * s * s
+    ok = lambda k: k in obs and not isinstance(obs[k], Exc)  # noqa
+    if ctx.loop_root and ctx.root_inherited:
+        # a path built from these very coordinates already showed (and reported) a root symptom of its
+        # construction: a second construction from them (file / dict re-import) says nothing new
+        ctx.root_fired = True
+        run.count("symptom_inherited_from_source")
+        return None
+    if ctx.loop_root and "paths" in obs:
+        # root observation of the classes next to the library's resolution: the closed curves themselves.
+        # Fewer closed paths than rings (or an open drawing) = a loop was opened / lost when the path was
+        # built; every other read is computed from the closed paths and says the same thing again
+        # (also when it does so by raising on the emptied path)
+        v = obs["paths"]
+        nv = obs.get("_n_vertices")
+
+        def root_bad(*a, **kw):
+            if ctx.root_inherited:
+                ctx.symptoms.add((a[0], a[1]))
+                run.count("symptom_inherited_from_source")
+            else:
+                ctx.bad(*a, **kw)
+
+        if ctx.expect_vertices is not None and nv is not None and nv < ctx.expect_vertices:
+            root_bad("vertices", "distinct_points_welded", "%d vertices kept of %d distinct points that are more than "
+                    "8e-4 of the extents apart" % (nv, ctx.expect_vertices), got=nv, want=ctx.expect_vertices)
+            ctx.root_fired = True
+        elif isinstance(v, Exc):
+            root_bad("paths", "exception:" + v.name, "reading `paths` raised %s" % v, error=repr(v))
+            ctx.root_fired = True
+        elif len(v) != nr:
+            root_bad("paths", "count", "%d closed paths, drawing has %d rings: a loop was opened or lost" % (len(v), nr),
+                    got=len(v), want=nr)
+            ctx.root_fired = True
+        elif ok("is_closed") and not bool(obs["is_closed"]) and not sl.get("spurs"):
+            root_bad("is_closed", "false", "is_closed is False for a drawing of closed rings: some loop is open")
+            ctx.root_fired = True
+        else:
+            # the path was built but cannot be read: the first read (fixed order) that raises
+            raising = [k for k in READS if isinstance(obs.get(k), Exc)]
+            if raising:
+                root_bad(raising[0], "exception:" + obs[raising[0]].name, "reading `%s` raised %s (and %d other reads)"
+                         % (raising[0], obs[raising[0]], len(raising) - 1), error=repr(obs[raising[0]]))
+                ctx.root_fired = True
+        if ctx.root_fired:
+            ctx.root_masked |= LOOP_DOWNSTREAM | set(READS) | {"is_closed"}
+            ctx.run.count("judgements_ended_at_root_symptom")
+            return None
     for k, v in obs.items():
         if isinstance(v, Exc):
             ctx.bad(k, "exception:" + v.name, "reading `%s` raised %s" % (k, v), error=repr(v))
-    ok = lambda k: k in obs and not isinstance(obs[k], Exc)  # noqa
 
     def to_gen(q):
         q = np.asarray(q, dtype=np.float64).reshape((-1, 2))
@@ -362,13 +545,16 @@ def judge(ctx, obs, M=None, pres=None):
                 run.count("discrete_clockwise_observed")
                 run.state("discrete_clockwise", ctx.prefix)
             want = float(ring.area) * s * s
-            tol = RTOL * want + ARC_RTOL * ring.arc_area * s * s
+            tol = rtol * want + (ARC_RTOL * ring.arc_area + s_area) * s * s
             if abs(abs(a) - want) > tol:
                 ctx.bad("discrete", "ring_area", "area enclosed by a discrete curve differs from its ring",
                         index=i, ring=ri, kind=ring.kind, got=abs(a), want=want)
-            if not ring.has_arc and len(d) - 1 != len(ring.edges):
+            if not ring.has_arc and len(d) - 1 != len(ring.edges) and not sl.get("pos"):
                 ctx.bad("discrete", "vertex_count", "polyline ring rebuilt with a different number of corners",
                         index=i, ring=ri, got=len(d) - 1, want=len(ring.edges))
+        if sl.get("shallow") and ("discrete", "off_curve") in ctx.symptoms:
+            # the polygons and bounds are built from the same points
+            ctx.root_masked |= {"polygons_closed", "polygons_full", "bounds", "extents", "centroid"}
         got = sorted(r for r in path_ring if r is not None)
         if len(disc) == nr and got != list(range(nr)) and None not in path_ring:
             ctx.bad("discrete", "ring_duplicated", "some ring reconstructed twice / another never", rings=got)
@@ -424,7 +610,7 @@ def judge(ctx, obs, M=None, pres=None):
                     continue
             ring = D.rings[ri]
             want = float(ring.area) * s * s
-            tol = RTOL * want + ARC_RTOL * ring.arc_area * s * s
+            tol = rtol * want + (ARC_RTOL * ring.arc_area + s_area) * s * s
             if abs(p.area - want) > tol or len(p.interiors) != 0 or not p.is_valid:
                 ctx.bad("polygons_closed", "ring_area", "closed polygon differs from its ring (area / interiors / validity)",
                         index=i, ring=ri, kind=ring.kind, got=p.area, want=want, interiors=len(p.interiors))
@@ -488,7 +674,7 @@ def judge(ctx, obs, M=None, pres=None):
                 ctx.bad("polygons_full", "hole_as_shell", "a hole ring is the exterior of a full polygon", index=i, ring=ri)
                 continue
             want = float(D.region_area(ri)) * s * s
-            tol = RTOL * float(ring.area) * s * s + ARC_RTOL * s * s * (ring.arc_area + sum(D.rings[c].arc_area for c in ring.children))
+            tol = rtol * float(ring.area) * s * s + s * s * (s_area + ARC_RTOL * (ring.arc_area + sum(D.rings[c].arc_area for c in ring.children)))
             if len(p.interiors) != len(ring.children):
                 ctx.bad("polygons_full", "hole_count", "full polygon has the wrong number of holes",
                         index=i, ring=ri, got=len(p.interiors), want=len(ring.children))
@@ -500,11 +686,11 @@ def judge(ctx, obs, M=None, pres=None):
             ctx.bad("polygons_full", "wrong_shells", "full polygons are not built on the shells", got=sorted(seen), want=sorted(shells))
     # ---- totals
     if ok("area"):
-        tol = RTOL * max(exp_area, s * s) + arc_tol_area
+        tol = rtol * max(exp_area, s * s) + arc_tol_area
         if abs(obs["area"] - exp_area) > tol:
             ctx.bad("area", "wrong_value", "total area differs from shells minus holes", got=float(obs["area"]), want=exp_area, tol=tol)
     if ok("length"):
-        tol = RTOL * exp_len
+        tol = rtol * exp_len + s_len * s
         if abs(obs["length"] - exp_len) > tol:
             extra = (float(obs["length"]) - exp_len) / s
             al = D.arc_length()
@@ -516,19 +702,25 @@ def judge(ctx, obs, M=None, pres=None):
                 sym = "wrong_value"
             ctx.bad("length", sym, "total length differs from the sum of ring perimeters",
                     got=float(obs["length"]), want=exp_len, arc_length=al * s)
-    if ok("is_closed") and not bool(obs["is_closed"]):
-        ctx.bad("is_closed", "false", "is_closed is False for a drawing of closed rings")
-    if ok("vertex_graph") and set(obs["vertex_graph"]) - {2}:
-        ctx.bad("vertex_graph", "degree", "vertex graph has nodes of degree != 2", degrees=sorted(set(obs["vertex_graph"])))
-    if ok("dangling") and len(obs["dangling"]):
-        ctx.bad("dangling", "nonempty", "entities reported dangling", got=np.asarray(obs["dangling"]).tolist())
+    if sl.get("spurs"):
+        # corner pieces smaller than the merge distance: every closed path, polygon, area and length is
+        # judged above; welded sub-resolution pieces may leave a vertex that is not of degree two, which
+        # is bookkeeping below the library's resolution (observed, not judged)
+        if (ok("is_closed") and not bool(obs["is_closed"])) or (ok("vertex_graph") and set(obs["vertex_graph"]) - {2}):
+            run.count("sub_resolution_spur_observed")
+    else:
+        if ok("is_closed") and not bool(obs["is_closed"]):
+            ctx.bad("is_closed", "false", "is_closed is False for a drawing of closed rings")
+        if ok("vertex_graph") and set(obs["vertex_graph"]) - {2}:
+            ctx.bad("vertex_graph", "degree", "vertex graph has nodes of degree != 2", degrees=sorted(set(obs["vertex_graph"])))
+        if ok("dangling") and len(obs["dangling"]):
+            ctx.bad("dangling", "nonempty", "entities reported dangling", got=np.asarray(obs["dangling"]).tolist())
     # ---- bounds
     if ok("bounds") or ok("extents") or ok("centroid"):
         P = _dense_points(D)
         P = P @ M[:2, :2].T + M[:2, 2]
         eb = np.array([P.min(axis=0), P.max(axis=0)])
-        rmax = max([e[2] for r in D.rings for e in r.edges if e[0] == "A"] + [0.0])
-        tol = 1e-8 * L0 * s + 1e-3 * rmax * s
+        tol = (1e-8 * L0 + sl.get("pos", 0.0) + _bounds_arc_tol(D)) * s
         if ok("bounds") and (np.shape(obs["bounds"]) != (2, 2) or np.abs(obs["bounds"] - eb).max() > tol):
             ctx.bad("bounds", "wrong_value", "bounds differ from the extent of the rings", got=obs["bounds"], want=eb)
         if ok("extents") and (np.shape(obs["extents"]) != (2,) or np.abs(obs["extents"] - (eb[1] - eb[0])).max() > 2 * tol):
@@ -562,11 +754,18 @@ def summary(obs):
 
 def compare_fresh(ctx, got, want, D, s):
     """Differential: the mutated path against a freshly built one with the same geometry."""
-    arc = ARC_RTOL * D.arc_area() * s * s
+    sl = ctx.slack or {}
+    rtol = sl.get("rtol", RTOL)
+    arc = (ARC_RTOL * D.arc_area() + sl.get("area", 0.0)) * s * s
+    if ctx.root_fired and ctx.loop_root:
+        return
     for k in ("n_paths", "n_root", "n_edges", "body_count", "is_closed"):
+        if k == "is_closed" and sl.get("spurs"):
+            continue
         if got.get(k) != want.get(k) and got.get(k) is not None and want.get(k) is not None:
             ctx.bad(k, "differs_from_fresh", "value differs from a freshly built path", got=got.get(k), want=want.get(k))
-    for k, tol in (("area", RTOL * (want.get("area") or 0) + 2 * arc), ("length", RTOL * (want.get("length") or 0))):
+    for k, tol in (("area", rtol * (want.get("area") or 0) + 2 * arc),
+                   ("length", rtol * (want.get("length") or 0) + 2 * sl.get("length", 0.0) * s)):
         if got.get(k) is not None and want.get(k) is not None and abs(got[k] - want[k]) > tol:
             ctx.bad(k, "differs_from_fresh", "value differs from a freshly built path", got=got[k], want=want[k])
     if "full" in got and "full" in want:
@@ -608,14 +807,105 @@ def _apply(path, step, rnd):
     return M
 
 
+def _drawing(spec):
+    cls = spec.get("cls")
+    if cls in gp.SPECIAL:
+        return gp.special_drawing_from_seed(cls, spec["dseed"])
+    return gp.drawing_from_seed(spec["dseed"], kinds=spec.get("kinds"), max_rings=spec.get("max_rings", 10))
+
+
+def class_of_case(D, pres, spec):
+    """
+    -> (key fragment, slack) of the opt-in drawing classes next to the library's resolution.
+    The fragment names the class by the quantity the mechanism depends on:
+      arcs=shallow                     some three point arc spans less than 0.02 rad
+      detail=fillet_near_merge_grid    corner fillets / chamfers of 3e-6 ... 5e-4 of the diagonal
+      gap=below_chord_sag              nested curves closer than the sagitta of a legitimate chord
+    """
+    cls = spec.get("cls")
+    pieces = arc_pieces_info(pres)
+    slack = {"area": shallow_slack_area(pieces)}
+    frag = ""
+    if pieces and min(t for _, t in pieces) < 0.02:
+        frag = "arcs=shallow"
+        slack["shallow"] = True
+    if cls == "fillet":
+        frag = "detail=fillet_near_merge_grid"
+        b0 = D.bounds()
+        diag = float(np.linalg.norm(b0[1] - b0[0]))
+        # merge_vertices welds vertices that round to the same cell of a grid of at most 1e-4 of the
+        # diagonal (tol.merge * scale rounded up to a power of ten): a welded vertex moves by at most
+        # sqrt(2) cells; the region must survive, displaced by no more than that
+        pos = 1.5e-4 * diag
+        slack.update(pos=pos, area=slack["area"] + pos * D.length(), length=6.0 * pos * len(pres.entities), spurs=True)
+    elif cls == "close":
+        frag = "gap=below_chord_sag"
+    return frag, slack
+
+
+def observe_nesting(ctx, path):
+    """
+    Root observation of the enclosure tree for nested curves with a small gap: the number of
+    (shell, hole) edges.  When it is wrong the reads computed from the tree are its consequences.
+    """
+    want = len(ctx.D.expected_edges())
+    try:
+        got = len(path.enclosure_directed.edges())
+    except BaseException as e:  # noqa
+        ctx.bad("enclosure_tree", "exception:" + type(e).__name__, "enclosure_directed raised", error=repr(e)[:200])
+        return True
+    if got != want:
+        ctx.bad("enclosure_tree", "nesting_not_found", "%d shell -> hole edges for curves nested with a small gap, "
+                "expected %d" % (got, want), got=got, want=want, gap=getattr(ctx.D, "gap", None))
+        ctx.root_masked |= NEST_DOWNSTREAM
+        ctx.root_fired = True
+        return True
+    return False
+
+
+def _min_vertex_distance(pres):
+    """smallest distance between two vertex rows that are not bit-identical"""
+    from scipy.spatial import cKDTree
+
+    V = np.unique(pres.vertices, axis=0)
+    if len(V) < 2:
+        return np.inf
+    d, _ = cKDTree(V).query(V, k=2)
+    return float(d[:, 1].min())
+
+
 def execute(run, spec):
     """Run one case described by a JSON-able spec; judge after every step."""
     import trimesh
 
-    D = gp.drawing_from_seed(spec["dseed"], kinds=spec.get("kinds"))
-    pres = gp.presentation_from_seed(D, spec["pseed"], allow_closed_arc=spec.get("closed_arc", True))
+    cls = spec.get("cls")
+    D = _drawing(spec)
+    ap = spec.get("arc_pieces")
+    pres = gp.presentation_from_seed(D, spec["pseed"], allow_closed_arc=spec.get("closed_arc", True),
+                                     arc_pieces=tuple(ap) if ap else None)
     rnd = random.Random(spec.get("rseed", 0))
     process = spec.get("process", True)
+    ckey, slack0 = class_of_case(D, pres, spec)
+    b0 = D.bounds()
+    diag0 = float(np.linalg.norm(b0[1] - b0[0]))
+    if cls in ("close", "shallow") and _min_vertex_distance(pres) < 1.2e-3 * diag0:
+        # control points (of the two close curves / of neighbouring small pieces) within ten cells of the
+        # grid of merge_vertices (at most 1e-4 of the diagonal): they might legitimately be welded
+        run.skip("%s: control points within ten cells of the merge grid" % cls)
+        return None
+
+    # flat arcs are also observed one by one (read=arc_discrete): once one of them is off its circle the
+    # reads computed from the polygonised arcs are consequences, for the rest of this case (cached
+    # curves are carried through the transforms)
+    arc_masked = set()
+
+    def context(route, extra="", **kw):
+        c = Ctx(run, D, spec, route, " ".join(x for x in (extra, ckey) if x), **kw)
+        c.slack = dict(slack0)
+        c.loop_root = cls == "fillet"
+        c.masked |= arc_masked
+        return c
+
     try:
         path = pres.build(process=process)
     except BaseException as e:  # noqa
@@ -627,21 +917,43 @@ def execute(run, spec):
     final = spec.get("final")
     nontrivial = nent > len(D.rings) or any(r.depth for r in D.rings) or bool(steps) or bool(final)
     sig = pres.signature()
+    # entity provenance is only known while the path holds the presentation's entities one to one
+    # (merge_vertices legitimately drops an entity whose points all fall into one cell)
+    pres_of = lambda q: pres if len(q.entities) == nent else None  # noqa
     # ---- direct
-    ctx = Ctx(run, D, spec, "direct")
+    ctx = context("direct")
+    if cls == "close":
+        observe_nesting(ctx, path)
+    shallow = bool(slack0.get("shallow"))
+    if shallow and len(path.entities) == nent and observe_arc_entities(context("direct"), path, pres, np.eye(3)):
+        arc_masked |= ARC_DOWNSTREAM
+        ctx.masked |= arc_masked
     obs = observe(path, READS, rnd)
-    judge(ctx, obs, None, pres)
-    run.case("direct:%s:%s" % (D.input_class, pres.mode), sig[0], sig[1], process, nontrivial=nontrivial)
+    judge(ctx, obs, None, pres_of(path))
+    run.case("direct:%s:%s:%s" % (D.input_class, pres.mode, cls or "std"), sig[0], sig[1], process, nontrivial=nontrivial)
     run.state("nesting", D.depth_profile())
     run.state("entity_kinds", tuple(sorted(set(t + ("C" if c else "") for t, _, c in pres.entities))))
     run.state("ring_kinds", tuple(sorted(set(r.kind for r in D.rings))))
+    if ckey:
+        run.state("drawing_class", ckey)
+        run.count("cases_" + ckey.split("=")[0] + "_class")
     run.count("rings", len(D.rings))
     run.count("entities", nent)
+    if ctx.root_fired:
+        # the path is broken from the start: a history on it shows the same thing again
+        run.count("case_ended_at_root_symptom")
+        return None
     first = summary(obs)
+    first["_slack"] = dict(slack0)
+    if arc_masked:
+        # not a reference for the comparison across presentations
+        first.pop("area", None)
     last_symptoms = set(ctx.symptoms)
     # ---- transforms
     Macc = np.eye(3)
     gkey, gtags, masked = "", set(), set()
+    fresh_root = False
+    slack = dict(slack0)
     for si, step in enumerate(steps):
         pre = step.get("pre", [])
         pre_class = "none" if not pre else ("all" if len(pre) >= len(READS) else "some")
@@ -656,7 +968,7 @@ def execute(run, spec):
         if via == "apply_scale":
             extra += " factor=%s%s" % ("negative" if float(step["scale"]) < 0 else "positive",
                                        "_vector" if step.get("scale_form") == "vector" else "")
-        ctx = Ctx(run, D, spec, "transform", extra)
+        ctx = context("transform", extra)
         try:
             M = _apply(path, step, rnd)
         except BaseException as e:  # noqa
@@ -669,9 +981,8 @@ def execute(run, spec):
             P = _dense_points(D) @ Macc[:2, :2].T + Macc[:2, 2]
             want = np.eye(3)
             want[:2, 2] = -P.min(axis=0)
-            rmax = max([e[2] for r in D.rings for e in r.edges if e[0] == "A"] + [0.0])
             s0 = _mat_props(Macc)[1]
-            if M.shape != (3, 3) or np.abs(M - want).max() > 1e-3 * rmax * s0 + 1e-8 * (np.abs(P).max() + 1):
+            if M.shape != (3, 3) or np.abs(M - want).max() > (_bounds_arc_tol(D) + slack0.get("pos", 0.0)) * s0 + 1e-8 * (np.abs(P).max() + 1):
                 ctx.bad("rezero", "wrong_matrix", "rezero did not translate the lower-left corner to the origin",
                         got=M, want=want)
                 break
@@ -684,38 +995,90 @@ def execute(run, spec):
         if gkey:
             ctx.prefix += " " + gkey
             run.state("geometry_class", gkey)
+        # conditioning of the placement: coordinates `cond` times larger than the drawing leave
+        # 2.2e-16 * cond of its size as the resolution of float64
+        far, ext = placement(D, Macc)
+        cond = far / ext
+        slack = dict(slack0)
+        if cond > 1e3:
+            slack["rtol"] = RTOL + 2e-14 * cond
+            slack["pos"] = slack.get("pos", 0.0) + 4e-16 * far / s
+        ctx.slack = dict(slack)
+        resolution_class = bool(gtags & {"size=extents_above_1e6", "place=far_from_origin"})
+        ctx.loop_root = ctx.loop_root or resolution_class
         masked = set()
         # a freshly built path with the same geometry (new entities, empty cache) is judged first:
         # what it shows too is not caused by the history and is reported under route=direct
         fsum = None
+        fctx = context("direct", gkey)
+        fctx.spec = dict(spec, fresh_with_matrix=Macc.tolist())
+        fctx.slack = dict(slack)
+        fctx.loop_root = ctx.loop_root
+        if resolution_class and cls != "fillet":
+            # distinct generated points are >= 8e-4 of the extents apart at every scale
+            fctx.expect_vertices = len(np.unique(pres.vertices, axis=0))
+        fresh = None
         try:
             fresh = pres.build(matrix=Macc, process=process)
-            fctx = Ctx(run, D, dict(spec, fresh_with_matrix=Macc.tolist()), "direct", gkey)
-            # (its key carries the arc class only: the overall size plays no part in it)
-            actx = Ctx(run, D, fctx.spec, "direct", "arcs=cross_below_tol_zero")
-            if "arcs=cross_below_tol_zero" in gtags and observe_arc_entities(actx, fresh, pres, Macc):
-                # the root symptom is on record: what is computed from the polygonised arcs is a
-                # consequence (for this geometry only - arcs above the threshold stay fully judged)
-                masked = set(ARC_DOWNSTREAM)
-                fctx.masked = ctx.masked = masked
-                run.count("geometries_with_arc_off_circle")
-            fobs = observe(fresh, READS, rnd)
-            judge(fctx, fobs, Macc, pres)
-            ctx.inherited = set(fctx.symptoms)
-            if not fctx.symptoms - {("length", "arc_length_counted_twice")}:
-                fsum = summary(fobs)
         except BaseException as e:  # noqa
-            run.skip("fresh path could not be built: %s" % type(e).__name__)
+            # the same drawing given in the transformed coordinates cannot even be constructed
+            fctx.bad("constructor", "exception:" + type(e).__name__, "Path2D constructor raised for the transformed "
+                     "geometry: %s" % str(e)[:120], error=repr(e)[:300])
+        if fresh is not None:
+            try:
+                # (its key carries the arc class only: the overall size plays no part in it)
+                actx = Ctx(run, D, fctx.spec, "direct", "arcs=cross_below_tol_zero")
+                if "arcs=cross_below_tol_zero" in gtags and observe_arc_entities(actx, fresh, pres, Macc):
+                    # the root symptom is on record: what is computed from the polygonised arcs is a
+                    # consequence (for this geometry only - arcs above the threshold stay fully judged)
+                    masked = set(ARC_DOWNSTREAM)
+                    fctx.masked = ctx.masked = masked
+                    run.count("geometries_with_arc_off_circle")
+                elif shallow and len(fresh.entities) == nent and observe_arc_entities(context("direct"), fresh, pres, Macc):
+                    arc_masked |= ARC_DOWNSTREAM
+                    fctx.masked |= arc_masked
+                    ctx.masked |= arc_masked
+                fobs = observe(fresh, READS, rnd)
+                judge(fctx, fobs, Macc, pres_of(fresh))
+                ctx.inherited = set(fctx.symptoms)
+                if not fctx.symptoms - {("length", "arc_length_counted_twice")}:
+                    fsum = summary(fobs)
+            except BaseException as e:  # noqa
+                run.skip("fresh path could not be judged: %s" % type(e).__name__)
+        if shallow and not masked and not arc_masked and len(path.entities) == nent and observe_arc_entities(context("direct"), path, pres, Macc):
+            arc_masked |= ARC_DOWNSTREAM
+            ctx.masked |= arc_masked
         obs = observe(path, READS, rnd)
-        judge(ctx, obs, Macc, pres)
+        judge(ctx, obs, Macc, pres_of(path))
         if fsum is not None:
             compare_fresh(ctx, summary(obs), fsum, D, s)
-        last_symptoms = set(ctx.symptoms)
+        # (a path read back from a file is built from the same coordinates as the fresh one)
+        last_symptoms = set(ctx.symptoms) | set(fctx.symptoms)
+        fresh_root = fctx.root_fired
         run.case("transform:%s:%s:%s" % (tfc, via, pre_class), sig[0], sig[1], si, tuple(sorted(pre)),
                  np.asarray(step["M"]), nontrivial=tfc != "identity")
         run.state("tf_pre", (tfc, via, pre_class))
         run.state("cache_keys_before", tuple(sorted(pre)) if len(pre) < 4 else len(pre))
     # ---- final route
+    det0, s0 = _mat_props(Macc)
+    far, ext = placement(D, Macc)
+    if final == "path3d" and cls == "fillet":
+        # to_2D constructs a new path in a frame of its own: the constructor's merge once more, in a
+        # form that is not one of the statement's
+        final = None
+    if final in ("dxf", "svg") and cls in (None, "shallow"):
+        rmax = max([R for R, _ in arc_pieces_info(pres)] + [0.0])
+        if rmax > 100.0 * diag0:
+            # DXF / SVG describe an arc by its centre and radius: for a radius hundreds of times the
+            # drawing the stored digits, not the code, decide where its end points are read back
+            run.count("text_roundtrip_of_large_radius_arcs_replaced_by_dict")
+            final = "dict"
+    if final == "dxf" and "size=extents_above_1e6" in gtags and ext > 2e9:
+        # beyond this size one unit in the last place of a coordinate is comparable to the finest
+        # grid merge_vertices ever uses (0.1): whether the end points of an arc read back from its
+        # centre, radius and angles weld with their neighbours is then decided by float64 rounding
+        run.count("dxf_roundtrip_of_huge_drawing_replaced_by_dict")
+        final = "dict"
     if final in ("dxf", "svg"):
         # DXF / SVG store a fixed number of decimals: after a similarity of 1e-3 (or 1e3, where the
         # exporters switch notation) the stored precision, not the code, decides the relative
@@ -725,58 +1088,115 @@ def execute(run, spec):
         # the origin leaves the stored relative precision where it was, and the DXF form is judged
         # whenever the coordinates are no larger, relative to the drawing, than in the generated
         # drawing itself.  SVG writes 13 DECIMALS (absolute): small drawings lose digits, skipped.
-        det0, s0 = _mat_props(Macc)
         if not (0.05 <= s0 <= 200.0):
             P0 = _dense_points(D, n=64)
             far0 = float(np.abs(P0).max())
             far1 = float(np.abs(P0 @ Macc[:2, :2].T + Macc[:2, 2]).max())
-            b0 = D.bounds()
-            if final == "dxf" and far1 <= 1.5 * s0 * max(far0, float(np.linalg.norm(b0[1] - b0[0]))):
+            if final == "dxf" and far1 <= 1.5 * s0 * max(far0, diag0):
                 run.count("dxf_roundtrip_after_change_of_units")
             else:
                 run.skip("text round trip at extreme scale: format precision dominates")
                 final = None
     if final in ("dxf", "svg", "dict"):
         det, s = _mat_props(Macc)
-        ctx = Ctx(run, D, spec, final, gkey, inherited=last_symptoms, masked=masked)
+        fslack = dict(slack)
+        if final == "dxf" and "place=far_from_origin" in gtags:
+            # twelve significant digits of coordinates `far`: where the curve is read back is the format's
+            # business (5e-12 relative per stored number, an arc is rebuilt from five of them) -
+            # whether the regions are still there is the library's
+            pos = 5e-11 * far / s
+            fslack.update(pos=fslack.get("pos", 0.0) + pos, area=fslack.get("area", 0.0) + 2.0 * pos * D.length(),
+                          length=fslack.get("length", 0.0) + 8.0 * pos * nent)
+        ctx = context(final, gkey, inherited=last_symptoms, masked=masked)
+        ctx.slack = fslack
+        ctx.loop_root = cls == "fillet" or bool(gtags & {"size=extents_above_1e6", "place=far_from_origin"})
+        ctx.root_inherited = fresh_root
         loaded = None
+        units = spec.get("units") if final == "dxf" else None
+        via = spec.get("dict_via", "dict_to_path") if final == "dict" else None
         try:
             if final == "dict":
                 from trimesh.path.exchange.misc import dict_to_path
 
+                stage = "export"
                 exported = path.export(file_type="dict")
-                stage = "dict_to_path"
-                kwargs = dict_to_path(exported)
-                stage = "constructor"
-                loaded = trimesh.path.Path2D(**kwargs)
+                if via == "dict_to_path":
+                    stage = "dict_to_path"
+                    kwargs = dict_to_path(exported)
+                    stage = "constructor"
+                    loaded = trimesh.path.Path2D(**kwargs)
+                elif via == "load_path":
+                    # documented: load_path accepts a "dict with kwargs for Path constructor", and
+                    # export_dict returns "a dict of kwargs for the Path constructor"
+                    stage = "load_path_of_exported_dict"
+                    loaded = trimesh.load_path(exported)
+                elif via == "load":
+                    stage = "load_of_exported_dict"
+                    loaded = trimesh.load(exported)
+                    if type(loaded).__name__ == "Scene" and len(loaded.geometry) == 1:
+                        # `load` hands kwargs back wrapped in a scene (also for meshes): its one geometry
+                        loaded = list(loaded.geometry.values())[0]
+                else:
+                    stage = "constructor_with_exported_dict"
+                    loaded = trimesh.path.Path2D(**exported)
+                run.count("dict_reimport_via_" + via)
             else:
                 stage = "export"
+                if units:
+                    path.units = units
                 exported = path.export(file_type=final)
                 stage = "load_path"
                 data = exported.encode("utf-8") if isinstance(exported, str) else exported
                 loaded = trimesh.load_path(io.BytesIO(data), file_type=final)
         except BaseException as e:  # noqa
-            kinds = "with_Line" if any(t == "Line" for t, _, _ in pres.entities) else "arcs_only"
-            run.violation("route=%s stage=%s entities=%s sym=exception:%s" % (final, stage, kinds, type(e).__name__),
-                          "%s round trip raised in %s: %s" % (final, stage, str(e)[:120]), dict(spec, error=repr(e)[:300]))
+            name = type(e).__name__
+            if stage in ("constructor", "load_path") and ("constructor", "exception:" + name) in last_symptoms:
+                # the loader builds a Path2D from the same coordinates: the constructor's refusal, on record
+                run.count("symptom_inherited_from_source")
+            elif stage.endswith("exported_dict"):
+                run.violation("route=dict stage=%s sym=exception:%s" % (stage, name),
+                              "the exported dict is refused: %s" % str(e)[:120], dict(spec, error=repr(e)[:300]))
+            else:
+                kinds = "with_Line" if any(t == "Line" for t, _, _ in pres.entities) else "arcs_only"
+                tag = (" " + " ".join(x for x in (gkey, ckey) if x)) if (gkey or ckey) else ""
+                run.violation("route=%s stage=%s entities=%s%s sym=exception:%s" % (final, stage, kinds, tag, name),
+                              "%s round trip raised in %s: %s" % (final, stage, str(e)[:120]), dict(spec, error=repr(e)[:300]))
         if loaded is not None:
             if type(loaded).__name__ != "Path2D":
                 ctx.bad("type", "not_path2d", "round trip returned %s" % type(loaded).__name__)
             else:
+                if units:
+                    run.count("dxf_roundtrip_with_units")
+                    run.state("units", units)
+                    got_units = getattr(loaded, "units", None)
+                    if got_units != units:
+                        run.violation("route=%s units=declared read=units sym=changed" % final,
+                                      "a drawing exported in %s is read back in %s: its area and length are not the "
+                                      "ones that were exported" % (units, got_units),
+                                      dict(spec, observed={"exported": units, "loaded": got_units}))
                 lobs = observe(loaded, READS, rnd)
                 judge(ctx, lobs, Macc, None)
                 ls = summary(lobs)
-                compare_fresh(Ctx(run, D, spec, final, ("check=vs_source " + gkey).strip(), inherited=last_symptoms, masked=masked), ls, summary(observe(path, ["area", "length", "body_count", "is_closed", "paths", "root", "polygons_full", "enclosure_directed"])), D, s)
-        run.case("roundtrip:%s:%s" % (final, D.input_class), sig[0], sig[1], np.asarray(Macc), nontrivial=True)
+                vctx = context(final, ("check=vs_source " + gkey).strip(), inherited=last_symptoms, masked=masked)
+                vctx.slack = fslack
+                vctx.root_masked, vctx.root_fired, vctx.loop_root = set(ctx.root_masked), ctx.root_fired, ctx.loop_root
+                compare_fresh(vctx, ls, summary(observe(path, ["area", "length", "body_count", "is_closed", "paths", "root", "polygons_full", "enclosure_directed"])), D, s)
+        run.case("roundtrip:%s:%s:%s" % (final, D.input_class, via or units or ""), sig[0], sig[1], np.asarray(Macc), nontrivial=True)
         run.count("roundtrip_" + final)
     elif final == "path3d":
-        ctx = Ctx(run, D, spec, "path3d", gkey, inherited=last_symptoms, masked=masked)
+        ctx = context("path3d", gkey, inherited=last_symptoms, masked=masked)
         det, s = _mat_props(Macc)
         try:
             T = np.array(spec.get("to3d", np.eye(4).tolist()), dtype=np.float64)
             p3 = path.to_3D(transform=T)
-            l3, c3, n3 = float(p3.length), bool(p3.is_closed), len(p3.paths)
-            if abs(l3 - D.length() * s) > RTOL * D.length() * s:
+            try:
+                l3 = float(p3.length)
+            except BaseException as e:  # noqa
+                # (the same read as on the planar path: inherited when that one raises too)
+                ctx.bad("length", "exception:" + type(e).__name__, "Path3D length raised", error=repr(e)[:200])
+                l3 = D.length() * s
+            c3, n3 = bool(p3.is_closed), len(p3.paths)
+            if abs(l3 - D.length() * s) > slack.get("rtol", RTOL) * D.length() * s + slack.get("length", 0.0) * s:
                 al = D.arc_length() * s
                 sym = "arc_length_counted_twice" if al > 0 and abs(l3 - D.length() * s - al) < 1e-9 * D.length() * s else "wrong_value"
                 ctx.bad("length", sym, "Path3D length differs from the sum of ring perimeters", got=l3, want=D.length() * s)
@@ -797,7 +1217,7 @@ def execute(run, spec):
                 g = bs.get(k)
                 if g is None:
                     continue
-                tol = (RTOL * w + 2 * ARC_RTOL * D.arc_area() * s * s) if k == "area" else 0
+                tol = (slack.get("rtol", RTOL) * w + 2 * (ARC_RTOL * D.arc_area() + slack.get("area", 0.0)) * s * s) if k == "area" else 0
                 if abs(g - w) > tol:
                     ctx.bad(k, "wrong_value", "value after to_3D -> to_2D differs from the drawing", got=g, want=w)
         except BaseException as e:  # noqa
@@ -885,6 +1305,64 @@ def _tiny_step(run, rnd):
     return step
 
 
+def _huge_step(run, rnd):
+    """
+    The change of units the other way (the same drawing in nanometres instead of metres): similarity
+    about the origin with factor 1e5 ... 1e12, rotation and an offset of a few drawing units scaled along.
+    Extents of 4e6 ... 1e15: exactly representable, float64 is scale free.
+    """
+    sc = 10.0 ** rnd.randint(5, 12)
+    tag = "similarity_huge:%g" % sc
+    r = rnd.random()
+    if r < 0.35:
+        step = _scale_step({"tf": tag}, -sc if rnd.random() < 0.3 else sc, rnd)
+    else:
+        a = rnd.uniform(-math.pi, math.pi)
+        M = np.eye(3)
+        M[:2, :2] = sc * np.array([[math.cos(a), -math.sin(a)], [math.sin(a), math.cos(a)]])
+        M[:2, 2] = sc * np.array([rnd.uniform(-5, 5), rnd.uniform(-5, 5)])
+        step = {"tf": tag, "M": M.tolist(), "via": "vertices_assign" if r > 0.85 else "apply_transform"}
+    step["pre"] = _pre_reads(rnd)
+    return step
+
+
+def _far_step(run, rnd, D, acc):
+    """
+    A georeferenced placement: translation by 1e5 ... 5e5 diagonals of the drawing (`acc` = factor
+    accumulated by the steps before).  float64 keeps 1e-11 of the drawing's size there.
+    """
+    b0 = D.bounds()
+    diag = float(np.linalg.norm(b0[1] - b0[0])) * acc
+    ratio = 10.0 ** rnd.uniform(5.0, 5.7)
+    a = rnd.uniform(-math.pi, math.pi)
+    off = [ratio * diag * math.cos(a), ratio * diag * math.sin(a)]
+    T = np.eye(3)
+    T[:2, 2] = off
+    r = rnd.random()
+    step = {"tf": "translation_far:1e%d" % int(round(math.log10(ratio))), "M": T.tolist(), "via": "apply_transform"}
+    if r < 0.45:
+        step.update(via="apply_translation", offset=off)
+    elif r > 0.85:
+        step.update(via="vertices_assign")
+    step["pre"] = _pre_reads(rnd)
+    return step
+
+
+# opt-in drawing classes next to the library's resolution (see class_of_case): spec fragments
+def _special_class(rnd, k):
+    if k == 0:
+        # circles cut into hundreds of arcs: spans of 0.005 ... 0.02 rad
+        return {"cls": "shallow", "kinds": ["circle"], "max_rings": 1, "arc_pieces": [350, 700, "mid"]}, (2, 3)
+    if k == 1:
+        # crowned plates: single arcs of 1.6e-4 ... 0.025 rad with a radius of 40 ... 6000 chords
+        return {"cls": "shallow", "kinds": ["crowned", "crowned", "rect", "circle"], "max_rings": 4}, (5, 8)
+    if k == 2:
+        return {"cls": "shallow", "kinds": ["crowned", "circle", "bullet"], "max_rings": 3, "arc_pieces": [20, 80]}, (4, 6)
+    if k == 3:
+        return {"cls": "fillet"}, (6, 9)
+    return {"cls": "close"}, (4, 6)
+
+
 KIND_SETS = [
     None,
     ["rect", "convex", "star", "rectilinear"],  # line-only drawings: exact tolerances
@@ -902,17 +1380,32 @@ def workload(run):
     while not run.out_of_time(0.92):
         di += 1
         dseed = rnd.randrange(1 << 30)
-        kinds = KIND_SETS[di % len(KIND_SETS)]
-        D = gp.drawing_from_seed(dseed, kinds=kinds)
+        base = {"dseed": dseed}
+        if di % 2:
+            # every other drawing belongs to a class next to the library's resolution (the flat arcs
+            # are the expensive ones: one drawing in eight; fillets and close curves cost next to nothing)
+            k = (di // 8) % 3 if di % 8 == 3 else (3 if (di // 2) % 2 else 4)
+            frag, n_sp = _special_class(rnd, k)
+            base.update(frag)
+            kinds = base.get("kinds")
+        else:
+            kinds = KIND_SETS[di % len(KIND_SETS)]
+            base["kinds"] = kinds
+            n_sp = None
+        D = _drawing(base)
+        b0 = D.bounds()
         mats = [(t, M) for t, M in matrices(run.rng, dim=2) if t.split(":")[0] in TF_CLASSES
                 and not t.startswith("near_identity:scale")]
         firsts = []
-        npres = rnd.randint(*n_pres)
+        npres = rnd.randint(*(n_sp or n_pres))
+        if n_sp and not quick:
+            npres *= 2
         run.count("drawings")
         for pi in range(npres):
             if run.out_of_time(0.95):
                 break
-            spec = {"dseed": dseed, "kinds": kinds, "pseed": rnd.randrange(1 << 30), "rseed": rnd.randrange(1 << 30)}
+            spec = dict(base, pseed=rnd.randrange(1 << 30), rseed=rnd.randrange(1 << 30))
+            last_class = None
             # merged presentations may be built without processing
             r = rnd.random()
             if r < 0.45:
@@ -932,25 +1425,53 @@ def workload(run):
                     steps[-1] = _random_step(run, rnd, mats)
                 else:
                     steps = steps[:1]
-                if rnd.random() < 0.22:
-                    # the history ends with a change of units (always the LAST step: a later offset of
-                    # a few units would put a drawing of size 1e-6 far from the origin)
+                u = rnd.random()
+                if u < 0.5 and not base.get("cls"):
+                    # the history ends with a change of units / a georeferenced placement (always the LAST
+                    # step: a later offset of a few units would put a drawing of size 1e-6 far from the
+                    # origin; a placement far from the origin is left by the next offset)
                     first = steps[0]["tf"] if len(steps) == 2 else ""
                     if first.startswith("similarity:") and not (0.4 <= float(first.split(":")[1]) <= 2.5):
                         steps = []
-                    steps = steps[:-1] + [_tiny_step(run, rnd)]
+                    if u < 0.2:
+                        last_class = "tiny"
+                        steps = steps[:-1] + [_tiny_step(run, rnd)]
+                    elif u < 0.34:
+                        last_class = "huge"
+                        steps = steps[:-1] + [_huge_step(run, rnd)]
+                    else:
+                        last_class = "far"
+                        acc = 1.0
+                        for st in steps[:-1]:
+                            acc *= math.sqrt(abs(np.linalg.det(np.array(st["M"])[:2, :2])))
+                        steps = steps[:-1] + [_far_step(run, rnd, D, acc)]
+                if base.get("cls") == "close" or len(base.get("arc_pieces") or ()) > 2:
+                    # the enclosure tree is what is observed here / hundreds of entities: no histories
+                    steps = []
                 spec["steps"] = steps
             r2 = rnd.random()
-            if spec.get("steps") and spec["steps"][-1]["tf"].startswith("similarity_tiny"):
+            if last_class == "tiny":
                 # SVG stores absolute decimals (skipped at this size) and the 3D detour is not a form
                 # of the statement: DXF or dict instead
                 r2 = 0.0 if r2 < 0.2 else (0.25 if r2 < 0.34 else 1.0)
+            elif last_class == "huge":
+                r2 = 0.0 if r2 < 0.45 else (0.25 if r2 < 0.6 else 1.0)
+            elif last_class == "far":
+                r2 = 0.0 if r2 < 0.5 else (0.2 if r2 < 0.6 else (0.25 if r2 < 0.7 else 1.0))
+            elif base.get("cls") == "close":
+                r2 = 1.0
             if r2 < 0.12:
                 spec["final"] = "dxf"
+                if rnd.random() < 0.4:
+                    # a drawing that declares its unit
+                    spec["units"] = rnd.choice(UNITS)
             elif r2 < 0.24:
                 spec["final"] = "svg"
             elif r2 < 0.30:
                 spec["final"] = "dict"
+                # the helper dict_to_path, or one of the three documented ways to hand the exported
+                # dict back to the library
+                spec["dict_via"] = rnd.choice(["dict_to_path", "dict_to_path", "load_path", "load", "constructor"])
             elif r2 < 0.34:
                 spec["final"] = "path3d"
                 if rnd.random() < 0.5:
@@ -960,20 +1481,29 @@ def workload(run):
                     T = tf.quaternion_matrix(q / np.linalg.norm(q))
                     T[:3, 3] = run.rng.uniform(-50, 50, size=3)
                     spec["to3d"] = T.tolist()
+            t_case = time.time()
             first = execute(run, spec)
+            run.count("ms_in_class_%s" % (base.get("cls") or "std"), int(1000 * (time.time() - t_case)))
+            run.count("presentations_of_class_%s" % (base.get("cls") or "std"))
             if first is not None:
                 firsts.append((spec, first))
         # ---- metamorphic equality across the presentations of this drawing
         if len(firsts) >= 2:
-            ctx = Ctx(run, D, {"dseed": dseed, "kinds": kinds, "pseeds": [f[0]["pseed"] for f in firsts]}, "direct", "check=metamorphic")
+            ctag = {"fillet": " detail=fillet_near_merge_grid", "close": " gap=below_chord_sag", "shallow": " arcs=shallow"}
+            ctx = Ctx(run, D, dict(base, pseeds=[f[0]["pseed"] for f in firsts]), "direct",
+                      "check=metamorphic" + ctag.get(base.get("cls"), ""))
             ref = firsts[0][1]
-            tol_a = RTOL * (ref.get("area") or 0.0) + 2 * ARC_RTOL * D.arc_area()
+            sl_a = max(f[1].get("_slack", {}).get("area", 0.0) for f in firsts)
+            sl_l = max(f[1].get("_slack", {}).get("length", 0.0) for f in firsts)
+            tol_a = RTOL * (ref.get("area") or 0.0) + 2 * (ARC_RTOL * D.arc_area() + sl_a)
             for spec, f in firsts[1:]:
                 for k in ("n_paths", "n_root", "n_edges", "body_count", "is_closed"):
+                    if k == "is_closed" and base.get("cls") == "fillet":
+                        continue
                     if f.get(k) != ref.get(k):
                         ctx.bad(k, "presentation_dependent", "value depends on how the drawing is cut into entities",
                                 a=ref.get(k), b=f.get(k), pseed_a=firsts[0][0]["pseed"], pseed_b=spec["pseed"])
-                for k, tol in (("area", tol_a), ("length", RTOL * (ref.get("length") or 0.0))):
+                for k, tol in (("area", tol_a), ("length", RTOL * (ref.get("length") or 0.0) + 2 * sl_l)):
                     if f.get(k) is not None and ref.get(k) is not None and abs(f[k] - ref[k]) > tol:
                         ctx.bad(k, "presentation_dependent", "value depends on how the drawing is cut into entities",
                                 a=ref.get(k), b=f.get(k), pseed_a=firsts[0][0]["pseed"], pseed_b=spec["pseed"])
